@@ -35,11 +35,11 @@ ASSUMPTIONS = ["sample positions strictly increasing, 1-D, never requiring grad;
                "y.numel() <= 4096"]
 BUDGET = {"quick": {"worker_timeout": 600, "case_timeout": 60}, "thorough": {"worker_timeout": 2400, "case_timeout": 60}}
 REQUIRED_COUNTERS = {
-    "quick": {"method_trapz": 200, "method_simpson": 200, "method_cspline": 300, "axis_notlast_negdim": 200,
+    "quick": {"big_stack_cases": 10, "method_trapz": 200, "method_simpson": 200, "method_cspline": 300, "axis_notlast_negdim": 200,
               "axis_notlast_posdim": 200, "rank1": 60, "rank4": 60, "keepdim_calls": 900, "wrong_length_rejected": 900,
               "spline_mat_built": 300, "simpson_weights_built": 200, "trapz_weights_built": 200, "odd_nx": 200, "even_nx": 200,
               "twin_axis_cases": 40, "bc_not-a-knot": 40, "bc_natural": 40, "bc_clamped": 40, "bc_periodic": 40, "bc_default": 40},
-    "thorough": {"method_trapz": 2000, "method_simpson": 2000, "method_cspline": 3000, "axis_notlast_negdim": 2000,
+    "thorough": {"big_stack_cases": 80, "method_trapz": 2000, "method_simpson": 2000, "method_cspline": 3000, "axis_notlast_negdim": 2000,
                  "axis_notlast_posdim": 2000, "rank1": 600, "rank4": 600, "keepdim_calls": 9000, "wrong_length_rejected": 9000,
                  "spline_mat_built": 3000, "simpson_weights_built": 2000, "trapz_weights_built": 2000, "odd_nx": 2000,
                  "even_nx": 2000, "twin_axis_cases": 400, "bc_not-a-knot": 400, "bc_natural": 400, "bc_clamped": 400,
@@ -89,6 +89,16 @@ def cases(seed, tier):
                                 "grid": ir.GRID_KINDS[k % 4], "rank": rank, "ax": ax, "twin": 0, "dtype": "float64",
                                 "noncontig": 0})
                     k += 1
+    # large stacks of curves (10^4 .. 10^5 values: beyond any internal chunking / temporary-size threshold), integrated axis anywhere
+    k = 0
+    for rep_ in range(1 if tier == "quick" else 8):
+        for method in METHODS:
+            for rank, ax in ((3, 0), (3, 1), (4, 1), (3, 2), (2, 0)):
+                rng = random.Random(sub_seed(seed, "c15b", k))
+                out.append({"group": "big", "seed": sub_seed(seed, "c15bs", k), "method": method, "bc": rng.choice(BCS) if method == "cspline" else "-",
+                            "nx": rng.choice([17, 33, 40]), "grid": ir.GRID_KINDS[k % 4], "rank": rank, "ax": ax, "twin": 0, "dtype": "float64",
+                            "noncontig": int(rng.random() < 0.3), "big": 1})
+                k += 1
     return out
 
 
@@ -105,6 +115,11 @@ def _axis_class(rank, ax):
 def _shape_for(desc, rng):
     rank, ax, nx = desc["rank"], desc["ax"], desc["nx"]
     shape = [rng.choice([1, 2, 3, 4]) for _ in range(rank)]
+    if desc.get("big"):
+        per = {2: (1500, 2500), 3: (35, 55), 4: (11, 15)}[rank]
+        shape = [rng.randint(*per) for _ in range(rank)]
+        shape[ax] = nx
+        return shape, None
     shape[ax] = nx
     twin_ax = None
     if desc["twin"]:
@@ -163,6 +178,8 @@ def run_case(desc):
     if not np.array_equal(x.double().numpy(), xnp):
         raise HarnessBug("grid not exactly representable in the working precision")
     shape, twin_ax = _shape_for(desc, rng)
+    if desc.get("big"):
+        obs.count("big_stack_cases")
     nprng = np.random.default_rng(desc["seed"])
     ynp = nprng.standard_normal(shape)
     if f32:
